@@ -495,6 +495,11 @@ const EXPR_ZOO: &[&str] = &[
 ];
 
 pub fn run_one(out: &mut Out, src: &str, ext: &str, feats: &[&'static str], case_no: usize) {
+  run_one_exec(out, src, ext, feats, case_no, None)
+}
+
+/// `executed`: statement positions an engine was seen to execute (corpus/cf_exec.jsonl)
+pub fn run_one_exec(out: &mut Out, src: &str, ext: &str, feats: &[&'static str], case_no: usize, executed: Option<&Value>) {
   let codes: Vec<String> = RULES.iter().map(|s| s.to_string()).collect();
   let (rules, log) = with_spy(rules_by_codes(&codes), true);
   let linter = mk_linter(rules, &Words::default());
@@ -522,7 +527,7 @@ pub fn run_one(out: &mut Out, src: &str, ext: &str, feats: &[&'static str], case
       let imp = json!({"meta": cf["meta"], "unreachable": un, "getter": ge, "fallthrough": ft});
       out.case(
         json!({"m": "cf", "prog": cf["prog"], "query": cf["query"], "getters": cf["getters"], "cases": cf["cases"],
-               "impl_unreachable": un, "impl_getter": ge, "impl_fallthrough": ft, "impl_meta": cf["meta"]}),
+               "impl_unreachable": un, "impl_getter": ge, "impl_fallthrough": ft, "impl_meta": cf["meta"], "executed": executed}),
         imp,
         meta,
       );
@@ -558,6 +563,25 @@ function w{i}(s) {{ switch (s) {{ case 0: try {{ var v{i} = {x}; break; }} catch
     let ext = if e.contains("<div") { "tsx" } else { "ts" };
     run_one(&mut out, &wrap, ext, &["expression-zoo"], n);
     n += 1;
+  }
+  // programs with the statements node really executed (under random oracles for their free names; recorded once by
+  // tools/cf_exec_record.js): a seed-dependent window in the quick tier, all of them in the thorough one
+  {
+    let text = std::fs::read_to_string("/verif/corpus/cf_exec.jsonl").unwrap_or_default();
+    let lines: Vec<&str> = text.lines().collect();
+    if lines.is_empty() {
+      out.found("C10", "execution-corpus-missing", "", json!({}));
+    } else {
+      let k = if args.count >= 20000 { lines.len() } else { (args.count / 8).min(lines.len()) };
+      let start = (args.seed as usize).wrapping_mul(7919) % lines.len();
+      for i in 0..k {
+        let Ok(j) = serde_json::from_str::<Value>(lines[(start + i) % lines.len()]) else { continue };
+        let Some(src) = j["src"].as_str() else { continue };
+        run_one_exec(&mut out, src, "js", &["recorded-execution"], n, Some(&j["executed"]));
+        out.add("recorded-executed-statements", j["executed"].as_array().map(|a| a.len()).unwrap_or(0) as u64);
+        n += 1;
+      }
+    }
   }
   let mut m = 0;
   for s in corpus.iter().filter(|s| ["no-unreachable", "getter-return", "no-fallthrough"].contains(&s.rule.as_str())) {
